@@ -376,7 +376,11 @@ def execute(spec: Dict[str, Any], ctx: Ctx) -> None:
         _stage_states(ctx, compiled[job["q"] % len(texts)], docs_w[job["d"] % len(docs_w)], fctx)
     total_work = sum(refs[rkey(j)].fetches + len(refs[rkey(j)].ms) + 1 for _, _, j in jobs_flat)
     n_cancels = len(plan["faults"]["cancels"]) + int(plan["faults"].get("cancel_budget", 0))
-    max_steps = 400 + 60 * total_work * (1 + n_cancels)
+    # Progress bound once faults stop.  Generous on purpose: an implementation may give the loop a turn per node
+    # it visits (fairness), so the allowance also grows with document size x query length, not only with what
+    # the sync twin fetched; the bound is there to catch an evaluation that never ends, not a slow one.
+    visit = sum(gen_json.count_nodes(plan["docs"][j["d"] % len(docs_w)]) * (len(texts[j["q"] % len(texts)]) + 8) for _, _, j in jobs_flat)
+    max_steps = 400 + (60 * total_work + 4 * visit) * (1 + n_cancels)
 
     # ---------------------------------------------------------------- concurrent phase
     loop = SimLoop(ctx.choose, max_steps=max_steps)
